@@ -23,6 +23,7 @@ import EvalFilter.Model.Api
 import EvalFilter.Proofs.ParserClean
 import EvalFilter.Proofs.ParserBalance
 import EvalFilter.Props.C12
+import EvalFilter.Proofs.Lexer
 
 namespace EvalFilter.Props.C13
 open EvalFilter EvalFilter.Parser
@@ -68,6 +69,23 @@ theorem C13_examples :
     net ((Lexer.lex "while (a) { if (b) { x = [1, 2]; } }".toList).takeWhile (fun t => t.ty != .EOF)) = 0 ∧
     (parse (Lexer.lex "while (a) { if (b) { x = [1, 2]; } }".toList)).isSome = true := by
   decide +kernel
+
+/-! ### from the text: wherever the lexer meets something it cannot read, Prepare fails -/
+
+/-- **If, anywhere in the script, the lexer produces an ILLEGAL or type-less token, Prepare fails.**
+    `Lexer.Reach script s` are the states the lexer passes through; the token it produces in any of them
+    is in the stream, before the end-of-input token, so the parser cannot step over it. -/
+theorem C13_bad_token_anywhere (script : List Char) (s : Lexer.LexSt) (hr : Lexer.Reach script s) (hne : s.rest ≠ [])
+    (hbad : (Lexer.nextToken s).1.ty = .ILLEGAL ∨ (Lexer.nextToken s).1.ty = .NONE)
+    (optimize : Bool) (env : VM.Env) (fns : List (Str × VM.FnImpl)) (done : Nat → Bool) :
+    ∃ e, Api.prepare script optimize env fns done = .error e :=
+  C13_prepare_rejects script optimize env fns done
+    (Or.inl ⟨_, Lexer.lex_bad_token_before_eof script _ (Lexer.reach_token_mem script s hr hne) hbad, hbad⟩)
+
+/-- the end-of-input token comes last in the stream and only there: nothing after it is ever ignored -/
+theorem C13_eof_only_last (script : List Char) :
+    (∀ t ∈ (Lexer.lex script).dropLast, t.ty ≠ .EOF) ∧ ∃ ts e, Lexer.lex script = ts ++ [e] ∧ e.ty = .EOF :=
+  ⟨Lexer.lexAll_init_ne_eof _, Lexer.lexAll_last_eof _⟩
 
 /-! ### what makes the lexer produce such tokens -/
 
